@@ -579,6 +579,17 @@ class TaskScenario(ScenarioData):
                     successors = self._getSuccessors()
                     for successor in successors:
                         succ_start = successor.get("start", self.scenarioIdx)
+                        if succ_start:
+                            # Honour the gap the successor requests after this task
+                            for sdep in successor.get("depends", self.scenarioIdx) or []:
+                                if isinstance(sdep, dict) and sdep.get("task") is self.property:
+                                    if sdep.get("gapduration") and not sdep.get("onstart"):
+                                        from datetime import timedelta
+
+                                        succ_start = succ_start - timedelta(
+                                            hours=self._parse_duration(sdep.get("gapduration"))
+                                        )
+                                    break
                         if succ_start and succ_start < latest_end:
                             latest_end = succ_start
 
